@@ -84,34 +84,51 @@ def run(idx, rep, tier):
     if match is None:
         rep.missing_anchor("match statement of __getitem__")
         return
-    # ---- 1. canonical vectors
-    n_arm = 0
-    for case in match.cases:
-        n_arm += 1
-        arm = f"arm{n_arm}:{nospace(case.pattern)[:28]}"
-        asg = {}
-        for st in case.body:
-            for n in ast.walk(st):
-                if isinstance(n, ast.Assign) and len(n.targets) == 1 and isinstance(n.targets[0], ast.Name):
-                    asg[n.targets[0].id] = n.value
-        for st in case.body:
-            for n in ast.walk(st):
-                if isinstance(n, ast.BinOp) and isinstance(n.op, ast.MatMult) and isinstance(n.right, ast.Name) and n.right.id in asg:
-                    vec = asg[n.right.id]
-                    if not (isinstance(vec, ast.Call) and df.is_xnp_call(vec) == "canonical"):
-                        continue
-                    shp = next((k.value for k in vec.keywords if k.arg == "shape"), None)
-                    dim = norm_idx(nospace(shp.elts[0])) if isinstance(shp, ast.Tuple) and shp.elts else nospace(shp) if shp is not None else "?"
-                    left = nospace(n.left)
-                    # contracted dimension of the left operator
-                    if left.endswith((".T", ".H")):
-                        want = left[:-2] + ".shape[0]"
-                    else:
-                        want = left + ".shape[1]"
-                    ok = dim == want
-                    rep.decide(ok, "canonical-vector", arm, f"`{ast.unparse(n)}` multiplies a canonical vector of length {nospace(shp) if shp is not None else '?'}" +
-                               ("" if ok else f": the contracted dimension of `{left}` is {want.replace('[0]', '[-2]').replace('[1]', '[-1]')} (rows of non-square operators fail)"),
-                               detail="" if ok else "length", locs=[idx.loc(gi.module, n)])
+    # ---- 1. canonical vectors: every product `<op> @ e` of the base class whose right operand is a canonical basis vector (built
+    # in place, bound to a local first, or returned by a helper method such as self._basis_vector(i, axis=-2)) has the length of
+    # the dimension that `<op>` contracts
+    def substitute(node, mapping):
+        import copy
+        node = copy.deepcopy(node) if not hasattr(node, "_parent") else ast.parse(ast.unparse(node), mode="eval").body
+        class S(ast.NodeTransformer):
+            def visit_Name(self, n):
+                return mapping.get(n.id, n)
+        return S().visit(node)
+
+    def canonical_of(m, e, depth=0):
+        """the xnp.canonical(...) call that e denotes inside method m (helpers inlined with their arguments), or None"""
+        e = df.resolve_value(m.node, e)
+        if isinstance(e, ast.Call) and df.is_xnp_call(e) == "canonical":
+            return e
+        if isinstance(e, ast.Call) and isinstance(e.func, ast.Attribute) and isinstance(e.func.value, ast.Name) and e.func.value.id == "self" and depth < 2:
+            h = idx.find_method(base, e.func.attr)
+            if h is not None:
+                bound = df.bind_call(e, h.params[1:])
+                mapping = {k: v for k, v in bound.items() if not k.startswith("*")}
+                for r in df.returns(h.node):
+                    inner = canonical_of(h, r.value, depth + 1)
+                    if inner is not None:
+                        out = substitute(inner, mapping)
+                        return out
+        return None
+
+    for m in base.methods.values():
+        k_site = 0
+        for n in df.body_nodes(m.node):
+            if not (isinstance(n, ast.BinOp) and isinstance(n.op, ast.MatMult)):
+                continue
+            vec = canonical_of(m, n.right)
+            if vec is None:
+                continue
+            k_site += 1
+            shp = next((k.value for k in vec.keywords if k.arg == "shape"), None)
+            dim = norm_idx(nospace(shp.elts[0])) if isinstance(shp, ast.Tuple) and shp.elts else nospace(shp) if shp is not None else "?"
+            left = nospace(n.left)
+            want = left[:-2] + ".shape[0]" if left.endswith((".T", ".H")) else left + ".shape[1]"
+            ok = dim == want
+            rep.decide(ok, "canonical-vector", f"{m.name}:product{k_site}", f"`{ast.unparse(n)[:60]}` multiplies a canonical vector of length {nospace(shp) if shp is not None else '?'}" +
+                       ("" if ok else f": the contracted dimension of `{left}` is {want.replace('[0]', '[-2]').replace('[1]', '[-1]')} (rows of non-square operators fail)"),
+                       detail="" if ok else "length", locs=[idx.loc(m.module, n)])
     # ---- 2. attribute existence on the base class
     attrs = class_attrs(idx, base)
     n_reads = 0
@@ -194,6 +211,15 @@ def run(idx, rep, tier):
                 if not isinstance(v, ast.Subscript):
                     return None, None
                 prod_e = df.resolve_value(m.node, v.value)
+
+                def side(e):
+                    # the scattered buffer, whether it is bound to a local or written inline as update_array(zeros(..), X, idx)
+                    d = df.resolve_value(m.node, e)
+                    if upd is not None and (d is upd or (isinstance(d, ast.Name) and roles.get(d.id) == "Y")):
+                        return "Y"
+                    return ctext(e, roles)
+                if isinstance(prod_e, ast.BinOp) and isinstance(prod_e.op, ast.MatMult):
+                    return f"{side(prod_e.left)}@{side(prod_e.right)}", "[" + ctext(v.slice, roles) + "]"
                 return ctext(prod_e, roles), "[" + ctext(v.slice, roles) + "]"
 
             exits = [(r, *exit_shape(r)) for r in df.returns(m.node) if r.value is not None]
@@ -209,7 +235,7 @@ def run(idx, rep, tier):
                 guards = [p_ for p_ in parents(getattr(r, "_origin", r), m.node) if isinstance(p_, ast.If)]
                 gtxt = " and ".join(nospace(g.test) for g in guards)
                 only_sizes = bool(guards) and all(isinstance(g.test, ast.Compare) and all(".shape" in nospace(x) or "len(" in nospace(x) for x in [g.test.left] + g.test.comparators) for g in guards)
-                uses_raw = x in df.names_in(r.value) and "self.A" in nospace(r.value)
+                uses_raw = prod_t in (f"self.A@{x}", f"{x}@self.A")
                 if uses_raw and (only_sizes or not guards):
                     rep.refuted("slice-buffers", f"Sliced.{m.name}:shortcut", f"`return {nospace(r.value)}`" + (f" under `{gtxt}`" if gtxt else "") + " multiplies the parent by the un-scattered operand: "
                                 "the other index of the slice is ignored, and equal sizes do not make it the identity selection (reversed or permuted indices)", detail="bypass", locs=[idx.loc(m.module, r)])
@@ -280,7 +306,7 @@ def run(idx, rep, tier):
                     rep.refuted("slice-roundtrip", f"{f.short}:slice(*indices)", f"`{ast.unparse(c)}`: slice(*s.indices(n)) is not the same slice for negative steps with an open stop "
                                 "(slice(None, None, -1).indices(5) = (4, -1, -1), and slice(4, -1, -1) is empty)", detail="idiom", locs=[idx.loc(f.module, c)])
     rep.count("slice-roundtrip", proved=1 if not n_idiom else 0)
-    rep.floor("canonical-vector", 4)
+    rep.floor("canonical-vector", 2)
     rep.floor("slice-buffers", 4)
     rep.floor("attribute-exists", 30)
     rep.floor("case-coverage", 1)
